@@ -512,3 +512,150 @@ type TPairs struct {
 	P KPair[int, string]   `plenc:"1"`
 	Q []KPair[string, int] `plenc:"2"`
 }
+
+// ---- shapes added in the fourth campaign: every remaining basic kind as a
+// named type, more map key/value kinds, embedded structs, double pointers,
+// pointer elements of length-delimited kinds, more index edges, a wide struct
+// with out-of-order indexes.
+
+type (
+	MyI8  int8
+	MyI16 int16
+	MyI32 int32
+	MyI64 int64
+	MyU   uint
+	MyU32 uint32
+	MyU64 uint64
+	MyF32 float32
+)
+
+type TNamed2 struct {
+	A MyI8  `plenc:"1"`
+	B MyI16 `plenc:"2"`
+	C MyI32 `plenc:"3"`
+	H MyF32 `plenc:"8"`
+}
+
+type TNamed3 struct {
+	D MyI64 `plenc:"4"`
+	F MyU32 `plenc:"6"`
+}
+
+type TNamed4 struct {
+	E MyU   `plenc:"5"`
+	G MyU64 `plenc:"7"`
+}
+
+// remaining integer widths as plain fields and as slice elements
+type TInts4 struct {
+	A int64   `plenc:"1"`
+	C []int32 `plenc:"3"`
+	D []uint8 `plenc:"4,flat"`
+}
+
+type TMapBool struct {
+	A map[bool]int `plenc:"1"`
+}
+
+type TMapU8F struct {
+	B map[uint8]float64 `plenc:"2"`
+}
+
+type TMapNm struct {
+	C map[MyI8]MyU64 `plenc:"3"`
+}
+
+type TMapMyS struct {
+	A map[MyStr]MyStr `plenc:"1"`
+}
+
+type TMapB struct {
+	B map[string][]byte `plenc:"2"`
+}
+
+type TMapT struct {
+	C map[string]time.Time `plenc:"3"`
+}
+
+// embedded (anonymous) struct field carrying a tag
+type TEmb struct {
+	TIn `plenc:"1"`
+	Z   int `plenc:"2"`
+}
+
+type TPP struct {
+	P **int     `plenc:"1"`
+	Q *[]string `plenc:"2"`
+	R *[]TIn    `plenc:"3"`
+}
+
+type TPS struct {
+	S []*string    `plenc:"1"`
+	T []*time.Time `plenc:"2"`
+	U []MyStr      `plenc:"3"`
+}
+
+type TMapPL struct {
+	M map[string]*[]int `plenc:"1"`
+}
+
+type TSSP struct {
+	T [][]*int `plenc:"2"`
+	U []*[]int `plenc:"3"`
+}
+
+// more index edges: powers of two and their neighbours
+type TIdxEdges2 struct {
+	A bool `plenc:"31"`
+	B bool `plenc:"32"`
+	C bool `plenc:"33"`
+	D bool `plenc:"127"`
+	E bool `plenc:"128"`
+	F bool `plenc:"129"`
+	G bool `plenc:"255"`
+	H bool `plenc:"256"`
+	I bool `plenc:"257"`
+}
+
+type TIdxEdges3 struct {
+	A bool `plenc:"511"`
+	B bool `plenc:"512"`
+	C bool `plenc:"513"`
+	D bool `plenc:"4095"`
+	E bool `plenc:"4096"`
+	F bool `plenc:"4097"`
+	G bool `plenc:"16383"`
+	H bool `plenc:"16384"`
+}
+
+// more than eight fields, indexes not in declaration order
+type TWide struct {
+	A bool  `plenc:"1"`
+	B bool  `plenc:"2"`
+	K uint8 `plenc:"11"`
+	C bool  `plenc:"3"`
+	D bool  `plenc:"4"`
+	J bool  `plenc:"10"`
+	E bool  `plenc:"5"`
+	F bool  `plenc:"6"`
+	L bool  `plenc:"12"`
+	G bool  `plenc:"7"`
+	H bool  `plenc:"8"`
+	I bool  `plenc:"9"`
+}
+
+// C03: both sides use indexes of 64 and above; the reader dropped 100 and 101
+type KxHigh struct {
+	A  int    `plenc:"1"`
+	X1 int    `plenc:"100"`
+	X2 string `plenc:"101"`
+	B  int    `plenc:"102"`
+	C  string `plenc:"103"`
+}
+
+type KxHighPrime struct {
+	A int    `plenc:"1"`
+	B int    `plenc:"102"`
+	C string `plenc:"103"`
+	D int    `plenc:"200"`
+}
